@@ -20,6 +20,8 @@ structure PeerEntry where
   gen : Nat := 0                      -- identity of the Peer object (a fresh number for every NewPeer)
   specSources : List String := []     -- the connection as configured (`Connection.Equals` compares these)
   specFlags : List String := []
+  /-- command batches whose sender gave the client "will continue in background" and is still polling for the peer -/
+  pending : List (List String) := []
   deriving Inhabited
 
 structure WState where
@@ -204,6 +206,19 @@ def worldStep (schema : Schema) (ws? : Option WState) (clock : Int) (j : Json) :
     match ws.peers.find? (·.id == pid) with
     | none => (some ws, clock, some (Json.mkObj (base ++ [("error", .str "no such peer")])))
     | some e => (some ws, clock, some (Json.mkObj (base ++ [("state", peerJson ws e)])))
+  | "sleep", some ws =>
+    -- real time passes: senders that are still waiting for their peer poll its state: up → they send now, down → they give up
+    let peers := ws.peers.map fun e =>
+      if e.pending.isEmpty then e
+      else match e.p.status with
+        | .up | .syncing =>
+          let (p, b, cb) := e.pending.foldl (fun (acc : PeerSt × BackendSt × CmdBackend) cmds =>
+            let (p, b, cb, _) := sendCommands ws.w ws.now acc.1 acc.2.1 acc.2.2 cmds
+            (p, b, cb)) (e.p, e.b, e.cb)
+          { e with p := p, b := b, cb := cb, pending := [] }
+        | .down | .broken => { e with pending := [] }
+        | _ => e
+    (some { ws with peers := peers }, clock, none)
   | "mutate", some ws =>
     let bid := jStr j "backend"
     let ws := mapPeer ws bid fun e => { e with b := { e.b with tables := (jArr j "changes").foldl applyChange e.b.tables } }
